@@ -1,6 +1,6 @@
 import io
 from hashlib import sha256
-from impl import op, hx, unhx, err
+from impl import op, hx, unhx, err, mkfile
 import impl_bf3 as b3
 import register_crypto_plugin as plugin
 import bec2format.crypto as crypto
@@ -204,7 +204,7 @@ def bec2_pack(k, bs, es, ephs):
 @guard
 def bec2_tobin(k, bs, cs, es, ephs):
     with Oracle(parse_nats(ephs)) as o:
-        f = Bec2File(Bf3File({}, b3.parse_comps(cs)), parse_blocks(bs), unhx(k))
+        f = Bec2File(mkfile({}, b3.parse_comps(cs)), parse_blocks(bs), unhx(k))
         out = f.to_binary(parse_encs(es))
         return "ok " + hx(out) + " " + str(len(o.ephs))
 
@@ -379,7 +379,7 @@ def prop_c04bec2(k, bs, cs, es, ephs, what, stride, offset):
     key, comps = unhx(k), b3.parse_comps(cs)
     try:
         with Oracle(parse_nats(ephs)):
-            f0 = Bec2File(Bf3File({}, b3.parse_comps(cs)), parse_blocks(bs), key)
+            f0 = Bec2File(mkfile({}, b3.parse_comps(cs)), parse_blocks(bs), key)
             binary = f0.to_binary(parse_encs(es))
     except OverflowError:
         if b3.unrepresentable(comps):
@@ -474,7 +474,7 @@ def prop_c03bec2(k, bs, cs, es, ephs):
     key, comps = unhx(k), b3.parse_comps(cs)
     try:
         with Oracle(parse_nats(ephs)):
-            f0 = Bec2File(Bf3File({}, b3.parse_comps(cs)), parse_blocks(bs), key)
+            f0 = Bec2File(mkfile({}, b3.parse_comps(cs)), parse_blocks(bs), key)
             out = f0.to_binary(parse_encs(es))
     except Exception as e:
         return "ok writer-rejects " + type(e).__name__
@@ -542,11 +542,11 @@ def prop_c02(k, bs, cs, es, ephs):
         if key[0] & 1:
             # the same block objects have already been used for another file with another session key
             with Oracle([(n % (2 ** 255)) + 1 for n in parse_nats(ephs)]):
-                Bec2File(Bf3File({}, []), block_objs, bytes(b ^ 0x5A for b in key)).to_binary(wencs)
+                Bec2File(mkfile({}, []), block_objs, bytes(b ^ 0x5A for b in key)).to_binary(wencs)
         with Oracle(parse_nats(ephs)):
             # `auth_blocks` and `components` are declared as Iterables: handed over as list, tuple or one-shot iterators
             how = key[1] % 3
-            f0 = Bec2File(Bf3File({}, b3.parse_comps(cs) if how == 0 else iter(b3.parse_comps(cs))),
+            f0 = Bec2File(mkfile({}, b3.parse_comps(cs) if how == 0 else iter(b3.parse_comps(cs))),
                           block_objs if how == 0 else (tuple(block_objs) if how == 1 else (b for b in block_objs)), key)
             if key[2] % 2:
                 s = io.StringIO()
@@ -629,10 +629,10 @@ def prop_c06(k, cs, code, ckey):
     for framing in ("bf3", "bec2"):
         try:
             if framing == "bf3":
-                binary = b3.BF3_FILE_SIG + Bf3File({}, b3.parse_comps(cs)).to_binary(5, key)
+                binary = b3.BF3_FILE_SIG + mkfile({}, b3.parse_comps(cs)).to_binary(5, key)
                 body_off = 5
             else:
-                f0 = Bec2File(Bf3File({}, b3.parse_comps(cs)), [InitCustKeyAuthBlock(), UpdateAuthBlock(code, 7)], key)
+                f0 = Bec2File(mkfile({}, b3.parse_comps(cs)), [InitCustKeyAuthBlock(), UpdateAuthBlock(code, 7)], key)
                 binary = f0.to_binary([SoftwareCustKeyEncryptor(bytes(range(16)), ckey, 0)])
                 body_off = _header_tlvs(binary)[1]
         except OverflowError as e:
@@ -719,13 +719,13 @@ def prop_c06nocipher(k, cs, mode):
 
     if mode == "strict":
         try:
-            want = Bf3File({}, b3.parse_comps(cs)).to_binary(5, key)
+            want = mkfile({}, b3.parse_comps(cs)).to_binary(5, key)
         except OverflowError:
             return "ok writer-rejects OverflowError"      # an entry beyond the 255-byte directory-entry limit
         try:
             crypto.register_AES128(Strict)
             try:
-                got = Bf3File({}, b3.parse_comps(cs)).to_binary(5, key)
+                got = mkfile({}, b3.parse_comps(cs)).to_binary(5, key)
             except ValueError as e:
                 return f"FAIL the library hands the registered cipher unpadded data: {e}"
             except OverflowError:
@@ -736,7 +736,7 @@ def prop_c06nocipher(k, cs, mode):
     try:
         crypto.register_AES128(crypto.AES128 if mode == "missing" else Flaky)
         try:
-            out = Bf3File({}, b3.parse_comps(cs)).to_binary(5, key)
+            out = mkfile({}, b3.parse_comps(cs)).to_binary(5, key)
         except NotImplementedError:
             return "ok NotImplementedError" if mode == "missing" else "FAIL NotImplementedError from a registered cipher"
         except RuntimeError as e:
@@ -999,6 +999,60 @@ def prop_c09(sel, d, eph, k, explicit):
     blk, sk = InitEccAuthBlock.unpack(raw, [EccDecryptor(sel, priv_key(d))])
     if sk != key or blk.key_selector != sel:
         return "FAIL the library's decryptor does not recover the session key"
+    return "ok"
+
+
+@op("prop.c09hist")
+def prop_c09hist(sel, seed, steps):
+    """ONE InitEccAuthBlock object (and one Bec2File holding it) packed again and again for different recipients: every
+    block is addressed to the recipient of THAT call - an explicit encryptor of the block's selector, else the published
+    key - judged by an ECIES written with the independent arithmetic (ephemeral scalar from the oracle)"""
+    import random as _r
+    import refec
+    rng = _r.Random(int(seed))
+    sel = int(sel)
+    P = refec.P256
+    G = (P["gx"], P["gy"])
+    blk = InitEccAuthBlock(sel)
+    dA, dB = rng.randrange(1, P["n"]), rng.randrange(1, P["n"])
+
+    def raw_pub(d):
+        q = refec.mul(P, d, G)
+        return q[0].to_bytes(32, "big") + q[1].to_bytes(32, "big")
+
+    recipients = {
+        "default": (lambda: [], bytes(EccEncryptor.DEFAULT_PUBLIC_KEYS[sel])[-64:]),
+        "A": (lambda: [EccEncryptor(sel, crypto.create_public_ecc_key_from_raw_fmt(raw_pub(dA)))], raw_pub(dA)),
+        "B": (lambda: [ConfigSecurityCodeEncryptor(bytes(8)), EccDecryptor(sel, priv_key(dB))], raw_pub(dB)),
+        "other-selector": (lambda: [EccEncryptor((sel + 1) % 4, crypto.create_public_ecc_key_from_raw_fmt(raw_pub(dA)))],
+                           bytes(EccEncryptor.DEFAULT_PUBLIC_KEYS[sel])[-64:]),
+    }
+    trail = []
+    bec = None
+    for step in range(int(steps)):
+        who = rng.choice(list(recipients))
+        mk, pub = recipients[who]
+        eph = rng.randrange(1, P["n"])
+        key = bytes(rng.randrange(256) for _ in range(16))
+        via_file = rng.random() < 0.4
+        trail.append(f"{who}{'(file)' if via_file else ''}")
+        with Oracle([eph]):
+            if via_file:
+                if bec is None:
+                    bec = Bec2File(mkfile({}, []), [blk], key)
+                bec.session_key = key
+                hdr = bec.pack_auth_blocks(mk())
+                raw = hdr[2:2 + hdr[1]]
+            else:
+                raw = blk.pack(key, mk())
+        if raw[0] != sel or raw[1] != 4 or len(raw) != 82:
+            return f"FAIL step {step} ({' '.join(trail)}): malformed block"
+        Q = (int.from_bytes(pub[:32], "big"), int.from_bytes(pub[32:], "big"))
+        shared = refec.mul(P, eph, Q)[0].to_bytes(32, "big")
+        got = refaes.cbc_decrypt(sha256(shared).digest()[:16], bytes(16), raw[66:])
+        if got != key:
+            return (f"FAIL after packing the same block object for {' '.join(trail)}: the last block is not addressed to its "
+                    f"recipient ({who}): the recipient's key recovers {got.hex()} instead of the session key {key.hex()}")
     return "ok"
 
 
